@@ -1,7 +1,10 @@
 package main
 
 import (
+	"crypto/sha256"
 	"fmt"
+
+	"github.com/btcsuite/btcd/btcec/v2"
 
 	"github.com/elementsproject/peerswap/onchain"
 	"github.com/elementsproject/peerswap/swap"
@@ -90,6 +93,46 @@ func init() {
 						}
 					}
 					rec(nil)
+				}
+			}
+		}
+		// the script the rest of the node uses (ParamsToTxScript over swap.OpeningParams) binds exactly the keys and
+		// the hash it is asked for, whatever was built before in the same process: one payment hash under
+		// different key pairs, one key pair under different hashes
+		var keys []*btcec.PrivateKey
+		for i := 0; i < 3; i++ {
+			keys = append(keys, detKey(fmt.Sprint("bind", i)))
+		}
+		for round := 0; round < 2; round++ {
+			for hi := 0; hi < 2; hi++ {
+				for ti := range keys {
+					for mi := range keys {
+						if ti == mi {
+							continue
+						}
+						pre := sha256.Sum256([]byte(fmt.Sprint("bindpre", hi)))
+						h := sha256.Sum256(pre[:])
+						csv := csvs[(ti+mi+hi)%len(csvs)]
+						sc, err := onchain.ParamsToTxScript(&swap.OpeningParams{TakerPubkey: hexb(keys[ti].PubKey().SerializeCompressed()), MakerPubkey: hexb(keys[mi].PubKey().SerializeCompressed()), ClaimPaymentHash: hexb(h[:]), CSV: csv}, csv)
+						if err != nil {
+							res.addFinding("C02/params-script-error", err.Error(), nil)
+							continue
+						}
+						oi := 3 - ti - mi
+						e := &scriptEnv{maker: keys[mi], taker: keys[ti], other: keys[oi], amount: 1000000, preimage: pre[:], hash: h[:], script: sc}
+						wp := sha256.Sum256(sc)
+						e.pkScript = append([]byte{0x00, 0x20}, wp[:]...)
+						tx := e.spendTx(csv, 2)
+						in := map[string]interface{}{"taker": ti, "maker": mi, "hash": hi, "csv": csv, "round": round, "note": "scripts are requested in this order within one process: for round, hash, taker, maker"}
+						res.Evaluations += 4
+						res.Histogram["binding check"]++
+						if !e.run(tx, [][]byte{e.sign(tx, e.taker, e.amount), e.preimage, {}, {}}) || !e.run(tx, [][]byte{e.sign(tx, e.maker, e.amount)}) {
+							res.addFinding("C02/intended-path-rejected/params-entry", "the script built for these keys and hash rejects its own taker+preimage or maker-after-CSV spend", in)
+						}
+						if e.run(tx, [][]byte{e.sign(tx, e.other, e.amount), e.preimage, {}, {}}) || e.run(tx, [][]byte{e.sign(tx, e.other, e.amount)}) {
+							res.addFinding("C02/unintended-spend/params-entry/foreign-key", "the script built for these keys accepts a third party's signature on the preimage or CSV path", in)
+						}
+					}
 				}
 			}
 		}
